@@ -1243,6 +1243,34 @@ def write_rules(run, R="WRITE"):
             data = _deep(f, wr[0][1]["args"][-1], 4)
             ok = bool(re.fullmatch(r"P\d+", data)) and "Vec<u8>" in (f.local_ty(int(data[1:])) or "")
             why = "the bytes written are `%s`, not the data parameter" % data
+    # the file that is created is the one that was asked for, and no answer of the file system is thrown away
+    if cr:
+        created = _deep(f, cr[0][1]["args"][-1], 8)
+        named = bool(re.search(r"Path::new\((Deref::deref\()?P\d+", created)) or bool(re.fullmatch(r".*\bP\d+\)*", created)) and "format(" not in created
+        run.check(named and "format(" not in created, R, R + "|creates-the-named-file", f.loc(cr[0][1]["span"]), "the file created is the one named by the caller",
+                  "FileServerReal::write_bytes creates `%s`, not the file it was asked to write: the requested output only exists if a later step succeeds, and a file of that other name is overwritten" % created[:80])
+    import json
+    dropped = []
+    for bi, t in f.calls():
+        c = t.get("callee") or ""
+        if not re.search(r"^std::fs::", c) or t["dest"]["p"] or "Result" not in (f.local_ty(t["dest"]["l"]) or ""):
+            continue
+        dl = t["dest"]["l"]
+        used = False
+        for b2 in f.reachable():
+            blk = f.blocks[b2]
+            for st in blk["stmts"]:
+                if st["k"] == "assign" and re.search(r'"l": %d\b' % dl, json.dumps(st["rv"])):
+                    used = True
+            tt = blk["term"]
+            if tt["k"] == "call" and tt is not t and re.search(r'"l": %d\b' % dl, json.dumps(tt.get("args"))):
+                used = True
+            if tt["k"] == "switch" and re.search(r'"l": %d\b' % dl, json.dumps(tt.get("discr"))):
+                used = True
+        if not used:
+            dropped.append("%s at %s" % (c.rsplit("::", 1)[-1], f.loc(t["span"])))
+    run.check(not dropped, R, R + "|no-answer-dropped", f.loc(), "every answer of the file system in write_bytes is looked at",
+              "FileServerReal::write_bytes throws away the answer of %s: a failure there ends in `Ok`, i.e. a successful run without the requested output" % ", ".join(dropped))
     run.check(ok, R, R + "|success-means-written", f.loc(), "FileServerReal::write_bytes answers Ok only after creating the file and writing the given data succeeded",
               "FileServerReal::write_bytes: %s: a run could report success without the requested output file existing with its contents" % why)
 
